@@ -177,4 +177,39 @@ def execute(spec):
     return res
 
 
-CHECKS = [Check("two_fresh_processes", execute, strategy=spec_strategy, budget={"quick": 64, "thorough": 2500})]
+# ----------------------------------------------------------------------------- release policies through the API
+def policy_strategy(tier):
+    pol = st.fixed_dictionaries({
+        "kind": st.sampled_from(["poisson", "gamma", "fixed_gamma"]), "rate": st.sampled_from([0.05, 0.2, 1.0]), "base_rate": st.sampled_from([0.01, 0.1]),
+        "coefficient": st.sampled_from([0.5, 1.0, 2.0]), "n": st.integers(2, 6), "start": st.sampled_from([0, 5, 17]),
+    })
+    return st.fixed_dictionaries({"seed": st.integers(0, 2**20), "policies": st.lists(pol, min_size=1, max_size=4),
+                                  "hashseeds": st.tuples(st.integers(0, 100), st.integers(101, 1000)).map(list)})
+
+
+def exec_policies(case):
+    """Every sampling release policy built without an explicit rng_seed must take its randomness from the seeded global
+    generator: two fresh processes that call random.seed(N) first produce the same release times."""
+    res = CaseResult()
+    outs = []
+    for hs in case["hashseeds"]:
+        envp = dict(os.environ, PYTHONHASHSEED=str(hs))
+        p = subprocess.run([PY, os.path.join(env.VERIF_DIR, "pbt", "c09_child.py"), env.REPO, json.dumps(case)], capture_output=True, text=True, env=envp, timeout=120)
+        if p.returncode != 0:
+            res.violations.append(Violation("policy_process_failed", f"rc={p.returncode}: {p.stderr[-400:]}; case={case}", "repro.policy_process_failed"))
+            return res
+        outs.append(json.loads(p.stdout.strip().splitlines()[-1]))
+    for spec_, a, b in zip(case["policies"], outs[0], outs[1]):
+        if a != b:
+            res.violations.append(Violation("release_times_differ", f"{spec_['kind']} policy without rng_seed: {a} vs {b} after random.seed({case['seed']}); case={case}",
+                                            f"repro.release_times_differ.{spec_['kind']}"))
+            break
+    res.nontrivial = True
+    res.classes = sorted({"policy=" + p_["kind"] for p_ in case["policies"]})
+    return res
+
+
+CHECKS = [
+    Check("two_fresh_processes", execute, strategy=spec_strategy, budget={"quick": 64, "thorough": 2500}),
+    Check("release_policies_two_processes", exec_policies, strategy=policy_strategy, budget={"quick": 48, "thorough": 1500}),
+]
